@@ -144,7 +144,7 @@ def kernel_sample(wd, tier, seed):
     want = 12 if tier != 'thorough' else 150
     picked = []
     for which, fn in (('model', 'run_case6'), ('spec', 'spec_case2')):
-        pool = [(c, o) for c, o in SAMPLE_POOL[which] if len(c) < 1500 and len(o) < 4000]
+        pool = [(c, o) for c, o in SAMPLE_POOL[which] if len(c) < 1500 and len(o) < 4000 and o.strip() != "97"]
         rnd.shuffle(pool)
         picked += [(fn, c, o) for c, o in pool[:want]]
     if not picked:
